@@ -25,7 +25,7 @@ def idstar_mc(wd, slice_=60):
     def go():
         cfg = wd / "IDStarMachine.cfg"
         cfg.write_text(f'SPECIFICATION Spec\nCONSTANTS\n  Family = "A3o"\n  RndN = 5\n  RndK = 4\n  Seeds = {{1, 2}}\n  MaxAtoms = 2\n'
-                       f"  Slice = {slice_}\n  Check = TRUE\n" + "".join(f"INVARIANT {i}\n" for i in IDS_INVS) + "CHECK_DEADLOCK FALSE\n")
+                       f"  Slice = {slice_}\n  Check = TRUE\n  Mode = \"star\"\n" + "".join(f"INVARIANT {i}\n" for i in IDS_INVS) + "CHECK_DEADLOCK FALSE\n")
         r = tlc("IDStarMachine.tla", str(cfg), workers=NCPU, meta=wd / "idsmc", xmx="6g", timeout=5400)
         v = tlc_violation(r)
         if v:
